@@ -13,9 +13,19 @@ Streams (model = lean/JediModel/Model/Call.lean through Drivers/C11.lean)
   helpers      count_positional_arguments / iter_used_keyword_arguments vs model
   kinds        hand-built child lists that are not valid Python (parso recovers) vs `paramNames`
   pybind       `pyBind` (the theorems' Python side) vs real calls of the executed definition
+  pybound      `pyBound` (Python side of bound_eq_pyBound) vs inspect.signature of the bound method /
+               classmethod / class (ValueError = none)
+  forward      wrappers that forward **kwargs (only) to one or two callees (plain / decorator /
+               method layouts, own parameters, arguments given in the forwarding call):
+               Signature.params/.to_string() vs `processParamsKw` + `calleeParams`
+  pyaccepts    `pyAccepts`, `pyRunsKwWrapper`, `kwForwarded` vs real calls
   doc          docstring() vs `docAssemble`
   oracle:*     the property itself on the real code: exec the definition, inspect.signature,
-               re-parse of to_string(), real calls with a sentinel argument, inspect.getdoc
+               re-parse of to_string(), real calls with a sentinel argument, inspect.getdoc;
+               oracle:kwforward = exactly the calls that bind against the reported signature of a
+               pure **kwargs pass-through wrapper run without TypeError (all calls with <= 2+ positional
+               and <= 3 keyword arguments); oracle:wrapper = *args forwarding probe (unjudged in this
+               sandbox: RecursionError without typeshed)
 """
 import inspect
 import itertools
@@ -27,11 +37,17 @@ from common import short
 MODELS = ['Call']
 MANIFEST = dict(
     text='Theorems over the model of _ActualTreeParamName.get_kind, _SignatureMixin.to_string, '
-         'TreeSignature.get_param_names (process_params without forwarding, bound => drop first), '
+         'TreeSignature.get_param_names (process_params without forwarding and with **kwargs forwarded one level, '
+         'bound => _remove_bound_param: drop the first parameter unless it is *args), '
          '_iter_arguments and CallDetails.calculate_index: get_kind = inspect kinds on every valid parameter list '
          '(partial: no `__` names outside the positional-only section; counter-witness kernel-checked), '
          'to_string re-parses to the same parameter list, process_params is the identity on valid lists, '
-         'bound drops exactly the first parameter, calculate_index = CPython call binding for every '
+         'a bound signature equals inspect.signature of the bound object for EVERY valid parameter list that has one '
+         '(bound_eq_pyBound, full: first named parameter removed, leading *args kept), the forwarded signature of a '
+         '**kwargs pass-through wrapper is the wrapped callable\'s keyword-capable parameters as keyword-only ones '
+         '(kwforward_params/kwforward_pure) and accepts exactly the calls that run (kwforward_accepts_iff_partial: '
+         'positional-only parameters of the callee have defaults; kernel-checked counter-witness = known finding), '
+         'calculate_index = CPython call binding for every '
          'well-formed prefix ending in a non-name positional or `name=` argument (partial: hypotheses H1/H2 '
          'with kernel-checked counter-witnesses = known findings F17/F18), exact characterisation of the '
          'remaining cells (bare-name prefix, after *e), docstring assembly. Tie: translator constants + '
@@ -39,8 +55,9 @@ MANIFEST = dict(
          'uses inspect.signature, re-parses to_string(), performs real calls with sentinel arguments, '
          'inspect.getdoc.',
     note='Modelled not verified: parso (the node list handed to _iter_arguments is checked per case), '
-         'inference of the callee (which definition a call resolves to), process_params with forwarding '
-         'wrappers (oracle-only stream), inspect.cleandoc/literal_eval in docstring cleaning (oracle-only).',
+         'inference of the callee (which definition a call resolves to; for forwarding: which calls '
+         '_iter_nodes_for_param finds and what they resolve to - checked per case by stream forward), process_params '
+         'with *args forwarding (RecursionError in this sandbox: empty typeshed; probe stream oracle:wrapper only), inspect.cleandoc/literal_eval in docstring cleaning (oracle-only).',
     technique='Lean 4 proof over hand-written model + translator-generated constants + differential correspondence',
     design='5.C11')
 LEAN_TARGETS = ['JediModel.Props.C11', 'JediModel.Drivers.C11']
@@ -1268,7 +1285,7 @@ def stream_forward(ctx, reqs, metas):
         reqs.append({'op': 'fwd', 'outer': w['outer'], 'bound': w['bound'], 'callees': w['callees'],
                      'fname': w['fname'], 'ret': ''})
         metas.append(('fwd', {'source': w['src'], 'callee': w['callee'], 'layout': w['layout'],
-                              'given': [w['callees'][0]['count'], w['callees'][0]['keys']]}, real))
+                              'given': [w['callees'][0]['count'], w['callees'][0]['keys']]}, (real, w)))
         if w['pure']:
             oracle_kwforward(ctx, w, real)
 
@@ -1321,10 +1338,10 @@ def run(ctx):
     run_corpus(ctx, cases)
     cases += build_cases(ctx)
     cases = dedupe(cases)
-    if ctx.quick and len(cases) > 2400:
+    if ctx.quick and len(cases) > 1700:
         rng = ctx.subrng('trim')
         corpus_n = sum(1 for c in cases if c.get('corpus'))
-        cases = cases[:corpus_n] + rng.sample(cases[corpus_n:], 2400 - corpus_n)
+        cases = cases[:corpus_n] + rng.sample(cases[corpus_n:], 1700 - corpus_n)
     run_real(cases, jobs=1 if ctx.quick else 12)
     reqs = [request_of(c) for c in cases]
     metas = [('case', c, None) for c in cases]
@@ -1362,13 +1379,16 @@ def run(ctx):
                     # the model of CPython is wrong: our machinery, not jedi
                     raise common.InfraError('pyBind disagrees with CPython: %r model=%r cpython=%r' % (meta, ans, extra))
             elif stream == 'fwd':
-                real = extra
+                real, w = extra
                 ctx.count('forward', meta['source'], nontrivial=True,
                           bucket='%s/given=%s' % (meta['layout'], 'yes' if (meta['given'][0] or meta['given'][1]) else 'no'),
                           sample={'case': meta, 'impl': real['to_string']})
                 if real['params'] != ans['params'] or real['to_string'] != ans['to_string']:
                     ctx.tie_broken('correspondence:forward',
                                    short({'case': meta, 'impl': [real['params'], real['to_string']], 'model': ans}, 1500))
+                    if not w['pure']:
+                        # failing-input search: the property's criterion on this very program
+                        oracle_kwforward(ctx, w, real)
             elif stream == 'pyaccepts':
                 ctx.count('pyaccepts', json.dumps(meta, sort_keys=True), nontrivial=True,
                           bucket='npos=%d/%s' % (meta['npos'], 'accepted' if extra['accepts'] else 'TypeError'),
@@ -1394,8 +1414,12 @@ def run(ctx):
         '`nodesOf` against the real tree for every case) and the children of `parameters` (stream ptoks)',
         'callee inference: which definition the call resolves to, that methods reached through an instance / '
         'classmethods / classes are reported with is_bound=True (checked per case by streams params and oracle:params)',
-        'process_params is modelled for bodies that do not forward *args/**kwargs; forwarding wrappers are '
-        'checked by the direct oracle only (stream oracle:wrapper)',
+        'process_params is modelled for bodies that forward nothing and for bodies that forward **kwargs (only) to '
+        'callees that forward nothing themselves (stream forward: which calls are found and what they resolve to is '
+        'taken from the generator, the resulting parameter list is compared per case); *args forwarding cannot run in '
+        'this sandbox (TreeArguments.unpack of `*args` needs the builtins stubs: RecursionError) - probe only',
+        'CPython acceptance of a call enters kwforward_accepts_iff_partial as `pyAccepts` / `pyRunsKwWrapper`; '
+        'stream pyaccepts compares them with real calls; `pyBound` with inspect.signature (stream pybound)',
         'docstring cleaning (ast.literal_eval, inspect.cleandoc) is CPython code: oracle only (stream oracle:doc)',
         'single-line calls: `position[1] - name.start_pos[1]` is modelled as a natural number (cut)',
         'CPython call binding enters the theorems as `pyBind`; stream pybind compares it with real calls',
